@@ -976,7 +976,15 @@ class AdapterRegistry(BaseAdapterRegistry):
 
 
 class VerifyingAdapterLookup(AdapterLookupBase, VerifyingBase):
-    pass
+
+    def changed(self, ignored=None):
+        # Verifying registries get no notifications from their bases,
+        # so one of them may have been re-based since our registry
+        # computed its resolution order: recompute it before the
+        # generations of its members are recorded.
+        registry = self._registry
+        registry.ro = ro.ro(registry)
+        super().changed(ignored)
 
 
 @implementer(IAdapterRegistry)
